@@ -233,14 +233,20 @@ CHECKS = {
    technique="Coq proof (Properties/C17.v) + model-vs-implementation correspondence via extraction + specification oracles on the implementation's results"),
 
  "C08": dict(
-   text="Machine-checked theorems over the model of unify (all terms, all substitutions, any number of steps): every "
-        "successful unification keeps 'following bindings from any term ends' (the binding step is only taken after the "
-        "alias check chain_reaches found that the right operand's chain does not lead back to the variable), hence no "
-        "cycle after any sequence of successful unifications from the empty set; unifying two already aliased variables, "
-        "in either order, returns the substitution set itself. The model is tied to the code by differential execution "
-        "over all short unification sequences among three variables and three constants followed by resolving all three "
-        "variables (a cycle makes that diverge), plus relations checked on the implementation's own results.", ref="7/C08",
-   technique="Coq proof by a generic unify-invariant principle (Proofs/UnifyInv.v, Properties/C08.v) + model-vs-implementation correspondence via extraction"),
+   text="Machine-checked, over the model of unify (all terms, all substitutions, any number of steps): (1) every successful "
+        "unification keeps 'following bindings from any term ends' (chains_end: the binding step is only taken after the alias "
+        "check found that the right operand's chain does not lead back to the variable), hence no cycle of variables after any "
+        "sequence of successful unifications from the empty set; unifying two already aliased variables, in either order, "
+        "returns the substitution set itself (Properties/C08base.v). (2) TERMINATION (Properties/C08.v, Proofs/UnifyTerminates.v): "
+        "under chains_end, following bindings / get_ground_term / get_constant / get_list / get_complex terminate from any "
+        "term, with an explicit fuel bound (the chain length); resolving an answer (replace_variables) terminates with a term of "
+        "the same value whenever the substitution set has a solution in finite trees; unification of unifiable plain operands "
+        "terminates with success (C08_unify_terminates) - with C06: a total, correct decision on unifiable input. Outside, with "
+        "compiled witnesses: input that needs an occurs check (f($X,$Y,$X) = f(g($X),g($Y),$Y) loops for ever - the property "
+        "excludes it), hand-built tail nodes. Tie to the code: differential execution over all short unification sequences among "
+        "three variables, three constants and compound aliasing patterns followed by resolving all three variables (a cycle "
+        "makes that diverge), plus relations checked on the implementation's own results.", ref="7/C08",
+   technique="Coq proof of acyclicity by a generic unify-invariant principle and of termination of resolving and unifying on solvable input (Properties/C08.v, C08base.v) + model-vs-implementation correspondence via extraction"),
  "C09": dict(
    text="Machine-checked theorems over the model of unify: x = $_ and $_ = x return the substitution set itself for EVERY "
         "term x and every set; an argument position holding $_ on either side is skipped by the argument loop; no run of "
